@@ -141,7 +141,7 @@ fn read_back(bytes: &[u8]) -> Result<Vec<Norm>, String> {
             Ok(Event::Text(t)) => out.push(Norm::Text(t.unescape().map_err(|e| format!("cannot unescape text {:?}: {:?}", B::show(&t), e))?.into_owned())),
             Ok(Event::CData(c)) => out.push(Norm::CData(utf8(&c)?)),
             Ok(Event::Comment(c)) => out.push(Norm::Comment(utf8(&c)?)),
-            Ok(Event::PI(p)) => out.push(Norm::PI(utf8(&p)?)),
+            Ok(Event::PI(p)) => out.push(Norm::PI(utf8(&p)?, utf8(p.target())?)),
             Ok(Event::DocType(d)) => out.push(Norm::DocType(utf8(&d)?)),
             Ok(Event::Decl(d)) => {
                 let ver = d.version().map_err(|e| format!("version(): {:?}", e))?;
